@@ -71,8 +71,12 @@ Definition st a z c f i g := {| s_authn := a; s_authz := z; s_ctx := c; s_fin :=
 Definition eh k i g := {| e_key := k; e_if := i; e_cfg := g |}.
 Definition dd x e b := {| d_exec := x; d_eh := e; d_bt := b |}.
 Definition rd x e b k m := {| r_exec := x; r_eh := e; r_bt := b; r_backend := k; r_matchers_ok := m |}.
-Definition t (k : kind) (id : nat) (cfg : option nat) : tmech := (k, id, cfg).
-Definition rn (e : bool) (tr : list tmech) : bool * list tmech := (e, tr).
+(* trace entries: kind, id, override marker + 1 (0 = created without override) *)
+Definition tk (k : kind) (id cfg : nat) : tmech := (k, id, match cfg with 0 => None | S n => Some n end).
+Definition ta := tk KAuthn. Definition tz := tk KAuthz. Definition tc := tk KCtx.
+Definition tf := tk KFin. Definition te := tk KEh.
+Definition rt (tr : list tmech) : bool * list tmech := (true, tr).
+Definition rf (tr : list tmech) : bool * list tmech := (false, tr).
 Definition ro runs b := {| o_runs := runs; o_bt := b |}.
 Definition io a h f e b := {| i_sc := a; i_sh := h; i_fi := f; i_eh := e; i_bt := b |}.
 Definition cs p d r (o : load_res robs) := {| c_proxy := p; c_def := d; c_rule := r; c_obs := o |}.
